@@ -164,3 +164,11 @@ CASES += [
     {"name": "load_data hook does not drop the splines", "kind": "mutant", "rule": "C09-G", "edits": [
         (DFN, "            self._has_imag = bool(numpy.iscomplexobj(self.data))\n        self._splines_initialized = False\n", "            self._has_imag = bool(numpy.iscomplexobj(self.data))\n", 1)]},
 ]
+
+CASES += [
+    {"name": "even FT function records the caller's dictionary (the repaired defect)", "kind": "mutant", "rule": "C09-H", "edits": [
+        ("quantarhei/qm/corfunctions/correlationfunctions.py", "            self.params.append(dict(params))\n", "            self.params.append(params)\n", 2)]},
+    {"name": "conversion skipped under internal units keeps the caller's dictionary (seeded change of round 5)", "kind": "mutant", "rule": "C09-H", "edits": [
+        ("quantarhei/qm/corfunctions/correlationfunctions.py", "                    prms = {}\n                    for key in params.keys():\n                        if key in self.energy_params:\n                            prms[key] = self.convert_energy_2_internal_u(params[key])\n                        else:\n                            prms[key] = params[key]\n                            \n                except:",
+         "                    if self.manager.get_current_units(\"energy\") == \"int\":\n                        prms = params\n                    else:\n                        prms = {}\n                        for key in params.keys():\n                            if key in self.energy_params:\n                                prms[key] = self.convert_energy_2_internal_u(params[key])\n                            else:\n                                prms[key] = params[key]\n                            \n                except:", 1)]},
+]
